@@ -206,8 +206,9 @@ def addName (f : String) (ns : List String) : List String := if ns.contains f th
 
 /-- `Structure.__setattr__` on a class with `_enable_undefined_value`: after the immutability and
     the non-field checks, `None` for a non-required name is never stored — a field is recorded in
-    `_none_fields` and whatever `__dict__` held for it is removed (since ed6dbae; an immutable
-    field keeps its value) — and a non-`None` value for a field
+    `_none_fields` and whatever `__dict__` held for it is removed (since ed6dbae), except that an
+    immutable field which is already set refuses it with ValueError (since f1caf24) — and a
+    non-`None` value for a field
     discards the name from `_none_fields` and goes through the validated assignment; if that is
     rejected the name is recorded again (failure-atomic since 810b853) -/
 def setattrUndef (O : Oracles) (c : ClassOpts) (fields : List (String × FieldDecl)) (x : Inst)
@@ -217,10 +218,10 @@ def setattrUndef (O : Oracles) (c : ClassOpts) (fields : List (String × FieldDe
     let isField := (lookup f fields).isSome
     if !isField && !c.addl then (x, .err .valueErr)
     else if v.isNone && !c.required.contains f then
-      (if isField then
-         { x with nones := addName f x.nones,
-                  attrs := if c.immFields.contains f then x.attrs else assocDel f x.attrs }
-       else x, .ok)
+      if !isField then (x, .ok)
+      -- an immutable field that is already set refuses every assignment, `None` included (f1caf24)
+      else if c.immFields.contains f && (lookup f x.attrs).isSome then (x, .err .valueErr)
+      else ({ x with nones := addName f x.nones, attrs := assocDel f x.attrs }, .ok)
     else
       let r := setattrStep O c fields x.attrs f v
       let ns := match r.2 with
